@@ -62,6 +62,7 @@ def main():
     ap.add_argument("--only", default="")
     ap.add_argument("--props", default="")
     ap.add_argument("--seed", default="0")
+    ap.add_argument("--check", default="", help="also run these other properties' checks against the change (sibling catch)")
     a = ap.parse_args()
     only = set(x for x in a.only.split(",") if x)
     props = set(x for x in a.props.split(",") if x)
@@ -126,6 +127,11 @@ def main():
             else:
                 res["caught"] = None
                 res["note"] = "property not registered yet"
+            for pid2 in [x for x in a.check.split(",") if x and x != pid]:
+                rc, out = sh("%s harness/check.py %s --tier %s --seed %s" % (PY, pid2, a.tier, a.seed), cwd=vcopy, env={"VERIF_REPO": wt}, timeout=7200)
+                vio = [l for l in out.splitlines() if l.startswith("VIOLATION")]
+                res.setdefault("sibling", {})[pid2] = {"check_rc": rc, "violation_lines": vio[:3]}
+                print(sid, "sibling", pid2, "rc=%s" % rc, vio[:1])
             results[sid] = res
             print(sid, pid, "demo clean/patched rc=%s/%s" % (rc0, rc1), "caught=%s" % res.get("caught"), res.get("violation_lines", [])[:1],
                   ("suite missing: %s" % res["suite_missing_from_baseline"]) if a.suite else "")
